@@ -13,7 +13,8 @@ REF_SHEETS = [
     '@import "x.css" tv, print; @namespace p "u"; p|a { left: 0 }',
     "a { x: 1 } @media tv { b { y: 2 } } @page :first { margin: 1cm }",
 ]
-PROFILE_BATTERY = [("color", "red"), ("color", "1px"), ("left", "1px"), ("opacity", "0.5"), ("font-size", "huge")]
+PROFILE_BATTERY = [("color", "red"), ("color", "1px"), ("left", "1px"), ("opacity", "0.5"), ("font-size", "huge"), ("z-index", "-1"), ("orphans", "-2"),
+                   ("color", "rgb(-1, 0, 300)"), ("-x-count", "3")]
 
 
 def good_fetcher(url):
@@ -111,7 +112,10 @@ def do_parse(parsers, a, tmpdir):
 
 
 def dom_edit():
-    r = cssutils.css.CSSStyleRule(selectorText="a", style="left: 0")
+    try:
+        r = cssutils.css.CSSStyleRule(selectorText="a", style="left: 0")
+    except Exception as e:          # building a plain rule must always work: reported, not an adapter failure
+        return "EXC-building-rule:" + type(e).__name__
     try:
         r.selectorText = "a,,"
         return "logged"
@@ -135,6 +139,16 @@ def apply(world, a):
         sheet = cssutils.parseString("@media tv, print { a { left: 0 } }")
         ml = sheet.cssRules[0].media
         return outcome(lambda: setattr(ml[0], "mediaText", "tv and (color) x"))[0]
+    if op == "valueedit":
+        def f():
+            pv = cssutils.css.PropertyValue("1px solid")
+            pv[0].cssText = "auto"         # not a dimension: rejected
+        return outcome(f)[0]
+    if op == "profileaddremove":
+        def g():
+            cssutils.profile.addProfile("x-counts", {"-x-count": "{int}"}, macros={"int": r"\d+"})
+            cssutils.profile.removeProfile("x-counts")
+        return outcome(g)[0]
     if op == "serialize":
         return outcome(lambda: cssutils.parseString(REF_SHEETS[1]).cssText)[0]
     if op == "combine":
